@@ -70,9 +70,9 @@ def levelOps : List SExp → Option String
         let it ← optTuples t.iter
         let cols ← cols
         pure (.list [ofTuples t.tuples, it, cols, .atom (toString t.len), .atom (toString t.depth)])))
-  | [.atom "level.contains", t, k] => do
-      let t ← level? t; let k ← labs? k
-      pure (answer (.ok (ofBool (t.contains k))))
+  | [.atom "level.contains", t, depth, k] => do
+      let t ← level? t; let depth ← nat? depth; let k ← labs? k
+      pure (answer (.ok (ofBool (t.containsKey depth k))))
   | [.atom "level.leafloc", t, k] => do
       let t ← level? t; let k ← labs? k
       pure (answer ((t.leafLocToIloc k).map fun i => .atom (toString i)))
